@@ -28,8 +28,70 @@ def corpus_spec():
     return S.parse(corpus_files())
 
 
+# ---- tree -2: field names equal to the local variables of the generated deserializers (known finding 12).
+# Hand-written, never produced by SpecGen's name pools, run by C01 and C15 only; a violation on one of these
+# classes is reported under the mechanism 'field-name-captures-generated-local:<name>'.
+CAPTURE = {"LoopCapture": "i", "ReaderCapture": "reader", "StartCapture": "reader_start_position", "ModeCapture": "old_chunked_reading_mode"}
+CAPTURE_XML = """<protocol>
+    <struct name="LoopCapture">
+        <field name="i" type="char"/>
+        <length name="count" type="char"/>
+        <array name="items" type="short" length="count"/>
+        <field name="tail" type="char"/>
+    </struct>
+    <struct name="ReaderCapture">
+        <field name="reader" type="char"/>
+        <field name="other" type="short"/>
+    </struct>
+    <struct name="StartCapture">
+        <field name="reader_start_position" type="char"/>
+        <field name="other" type="short"/>
+    </struct>
+    <struct name="ModeCapture">
+        <chunked>
+            <field name="old_chunked_reading_mode" type="char"/>
+            <break/>
+            <field name="text" type="string"/>
+        </chunked>
+    </struct>
+    <struct name="NoCapture">
+        <field name="index" type="char"/>
+        <field name="result" type="char"/>
+        <length name="data" type="char"/>
+        <array name="writer" type="short" length="data"/>
+    </struct>
+</protocol>
+"""
+
+
+def capture_spec():
+    files = {k: "<protocol>\n</protocol>\n" for k in ("", "map", "net/client", "net/server", "pub", "pub/server")}
+    files["net"] = corpus_files()["net"]
+    files[""] = CAPTURE_XML
+    return S.parse(files)
+
+
+class CaptureRec:
+    """Proxy for a Rec: violations on the capture classes of tree -2 get the known finding's mechanism."""
+
+    def __init__(self, rec, ti):
+        self._rec, self._ti = rec, ti
+
+    def violation(self, mech, msg, case=None, **kw):
+        cls = (case or {}).get("class")
+        if self._ti == -2 and cls in CAPTURE:
+            msg = "[%s] %s" % (mech, msg)
+            mech = "field-name-captures-generated-local:" + CAPTURE[cls]
+        return self._rec.violation(mech, msg, case, **kw)
+
+    def __getattr__(self, name):
+        return getattr(self._rec, name)
+
+
 def make_spec(seed, index, **opts):
-    """Tree `index` of campaign `seed`: -1 is the hand-written corpus, others come from SpecGen."""
+    """Tree `index` of campaign `seed`: -1 is the hand-written corpus, -2 the capture tree, others come from SpecGen."""
+    if index == -2:
+        return capture_spec(), {"capture": 1}
     if index < 0:
         return corpus_spec(), {"corpus": 1}
     rng = random.Random("spec-%d-%d" % (seed, index))
@@ -41,10 +103,12 @@ def make_spec(seed, index, **opts):
     return sp, sg.features
 
 
-def tree_shards(n_trees, per_shard, extra=None):
+def tree_shards(n_trees, per_shard, extra=None, capture=False):
     """[-1 (corpus), 0..n_trees-1] split into shards."""
     idx = list(range(n_trees))
     out = [dict({"trees": [-1]}, **(extra or {}))]  # the hand-written tree gets a shard of its own (it is given more values)
+    if capture:
+        out.append(dict({"trees": [-2]}, **(extra or {})))
     for i in range(0, len(idx), per_shard):
         d = {"trees": idx[i:i + per_shard]}
         if extra:
